@@ -34,6 +34,23 @@ func main() {
 		os.Exit(checks.ReplayMain(os.Args[2:]))
 	case "selftest":
 		os.Exit(checks.SelftestMain(os.Args[2:]))
+	case "rewrite":
+		// debugging: print the sources the native replay is built from (verif rewrite <dir> [repo] [verif])
+		repo, vd := "/repo", "/verif"
+		if len(os.Args) > 3 {
+			repo = os.Args[3]
+		}
+		if len(os.Args) > 4 {
+			vd = os.Args[4]
+		}
+		m, err := run.RewriteTyped(repo, vd, os.Args[2])
+		if err != nil {
+			fmt.Println(err)
+			os.Exit(2)
+		}
+		for name, b := range m {
+			fmt.Printf("==== %s\n%s\n", name, b)
+		}
 	default:
 		usage()
 	}
